@@ -125,6 +125,8 @@ type pathState struct {
 	dom       map[*smt.Term]*[4]uint64 // over-approximate value set of each symbolic byte
 	dirty     bool
 	skipped   int
+	panicSite, recoveredSite string
+	noFaults     bool
 	atomics      int
 	locked       int
 	orderMode    int
